@@ -151,6 +151,7 @@ type Step struct {
 	Declare   bool    `json:"declare_oids,omitempty"`
 	Describe  string  `json:"describe,omitempty"` // "", "S", "P"
 	MixedFmt  bool    `json:"mixed_fmt,omitempty"` // per-parameter format codes instead of one for all
+	LitEvery  int     `json:"lit_every,omitempty"` // extended protocol: every n-th value is an inline literal instead of a placeholder
 }
 
 // GenStep draws a statement over the tables; nextID provides unique ids per table.
@@ -168,6 +169,9 @@ func GenStep(t *rapid.T, ts []TableSpec, nextID []int64, label string) Step {
 		// real clients always describe the statement or the portal: DataRows carry no type information
 		s.Describe = rapid.SampledFrom([]string{"S", "P"}).Draw(t, label+".describe")
 		s.MixedFmt = rapid.IntRange(0, 3).Draw(t, label+".mixed") == 0
+		if rapid.IntRange(0, 2).Draw(t, label+".litmix") == 0 {
+			s.LitEvery = rapid.IntRange(2, 3).Draw(t, label+".litevery")
+		}
 	}
 	pickCols := func(l string, min int) []int {
 		var cols []int
@@ -258,6 +262,7 @@ func GenStep(t *rapid.T, ts []TableSpec, nextID []int64, label string) Step {
 
 // Rendered is a statement ready to send.
 type Rendered struct {
+	nvals  int
 	SQL    string
 	Params []Val
 	PTypes []pgsess.ColType // logical type of each parameter
@@ -268,7 +273,8 @@ type Rendered struct {
 func (r *Rendered) lit(v Val, c ColSpec, s Step, allowParam bool) string {
 	lt := c.Logical()
 	castOK := s.Cast && c.DBType() == lt
-	if s.Ext && allowParam {
+	r.nvals++
+	if s.Ext && allowParam && !(s.LitEvery > 0 && r.nvals%s.LitEvery == 0) {
 		r.Params = append(r.Params, v)
 		r.PTypes = append(r.PTypes, lt)
 		// acra documents casts around placeholders as unsupported (queryDataEncryptor.go: "We don't support
